@@ -311,7 +311,7 @@ func (self *ReplicationBufferQueue) Pop(cursor *ReplicationBufferQueueCursor) er
 			self.glock.RUnlock()
 			return io.EOF
 		}
-		if currentItem.seq-cursor.seq != 1 && currentItem.seq != 0 && cursor.seq != 0xffffffffffffffff {
+		if currentItem.seq-cursor.seq != 1 && currentItem.seq != 0 {
 			self.glock.RUnlock()
 			return errors.New("out of buf")
 		}
@@ -1195,6 +1195,8 @@ func (self *ReplicationServer) handleInitSync(command *protocol.CallCommand) (*p
 			}
 			self.waofLock.AofIndex = self.aof.aofFileIndex
 			self.waofLock.AofOffset = self.aof.aofFileOffset + 1
+			self.bufferCursor.currentItem = nil
+			self.bufferCursor.seq = self.manager.bufferQueue.seq - 1
 		} else {
 			self.waofLock.buf = self.bufferCursor.buf
 			err = self.waofLock.Decode()
